@@ -23,7 +23,7 @@ BUDGET = {"quick": 30, "thorough": 200}
 
 def strategy(optimizer, tier):
     return strategies.run_spec(
-        optimizer, task=strategies.task_spec(minmax=("max",)),
+        optimizer, task=strategies.task_spec(minmax=("max",), families=strategies.WILD_FAMILIES),
         config=strategies.config_spec(optimizer, max_cycles=(3, 6 if tier == "quick" else 15), stopping=False,
                                       min_cycles=3, perturb=0.5),
         modes=("serial",), warmup=0.15)
